@@ -17,6 +17,7 @@ func init() {
 
 func genC04(c *Ctx) {
 	genPipeDynSweep(c, nil, 1500, 20000) // FlatMap family, fault-free cases only (pipedyn.go)
+	genPipeDynVar(c, false, true)        // ... and fault-free histories over a source whose contents change
 	// exhaustive small scope: every unary operator chain of depth <= 2 over small inputs is covered by the
 	// structured enumeration below; then seeded random trees
 	inputs := []string{"-", "1", "1,1", "0,1,2", "1,2,2,3", "0,0,1,2,2", "2,1,0", "0,1,2,3,4,5,6"}
